@@ -73,6 +73,17 @@ class Check:
                                   | {"actions": st["actions"], "never_taken": never})
         return st
 
+    def sensitivity(self, subdir: str, module: str, consts: str, name: str, *, what: str, prop: bool = False, timeout: int = 600) -> None:
+        """Model-level mutation guard: with the constants of a known-bad implementation variant (the pinned tree's behaviour kept as a
+        constant of the implementation-shaped spec) TLC must find `name` violated - otherwise the contract has lost its teeth."""
+        path = os.path.join(self.rundir, f"S_{module}_{name}_{abs(hash(consts)) % 99991}.cfg")
+        with open(path, "w") as f:
+            f.write("SPECIFICATION Spec\n" + consts + ("PROPERTY " if prop else "INVARIANT ") + name + "\nCHECK_DEADLOCK FALSE\n")
+        st = tlc.run_model(subdir, module, path, rundir=self.rundir, workers=8, coverage=False, timeout=timeout, must_pass=False)
+        if name not in str(st["violated"]):
+            raise MachineryError(f"sensitivity guard: {module} with the variant '{what}' does not violate {name} ({st['violated']}, {st['distinct']} states)")
+        self.cov.setdefault("sensitivity", []).append({"module": module, "variant": what, "violates": name, "found_within_states": st["states"]})
+
     def witnesses(self, subdir: str, module: str, consts: str, names: list[str], *, timeout: int = 600, xmx: str = "4g") -> None:
         """Vacuity guard: each name is a state predicate written as an invariant that TLC must find VIOLATED (the negated
         antecedent of a property, or 'no state with X'): if TLC finishes without violating it, the property it guards was
